@@ -154,6 +154,25 @@ def run(ctx):
             other = [v for _, cs, v in vals if any(c['kind'] == 'Eq' and c['truth'] is False and field_of_args(c['a']) == 'max_iters' for c in cs)]
             it_ok = len(vals) == 2 and bool(zero) and bool(other) and is_const(zero[0], 2 ** 64 - 1) and field_of_args(other[0]) == 'max_iters'
             detail = 'max_iters == 0 -> %s ; otherwise %s' % (facts.show(zero[0]) if zero else '?', facts.show(other[0]) if other else '?')
+        def nz_of_max_iters(x):
+            x = strip_refs(x)
+            return q.is_call(x, 'new') and 'NonZero' in x[1] and len(x[2]) == 1 and field_of_args(x[2][0]) == 'max_iters'
+        a2 = strip_refs(args[2])
+        if not it_ok and q.is_call(a2, 'map_or') and len(a2[2]) == 3:
+            # NonZeroU64::new(max_iters).map_or(u64::MAX, NonZeroU64::get): None exactly when max_iters == 0
+            it_ok = nz_of_max_iters(a2[2][0]) and is_const(a2[2][1], 2 ** 64 - 1) and a2[2][2][0] == 'fn' and short(a2[2][2][1]) == 'get' and 'NonZero' in a2[2][2][1]
+        if not it_ok and q.is_call(a2, 'unwrap_or') and len(a2[2]) == 2 and is_const(a2[2][1], 2 ** 64 - 1):
+            inner = strip_refs(a2[2][0])
+            it_ok = q.is_call(inner, 'map') and len(inner[2]) == 2 and nz_of_max_iters(inner[2][0]) and inner[2][1][0] == 'fn' and short(inner[2][1][1]) == 'get' and 'NonZero' in inner[2][1][1]
+        if not it_ok and args[2][0] == 'var':
+            vals = q.multi_def_values(m, args[2][1])
+            none = [v for _, cs, v in vals if any(c['kind'] == 'variant' and c['variants'] == ['None'] and nz_of_max_iters(c['a']) for c in cs)]
+            some = [v for _, cs, v in vals if any(c['kind'] == 'variant' and c['variants'] == ['Some'] and nz_of_max_iters(c['a']) for c in cs)]
+            if len(vals) == 2 and len(none) == 1 and len(some) == 1:
+                sv = strip_refs(some[0])
+                pay = strip_refs(sv[2][0]) if q.is_call(sv, 'get') and 'NonZero' in sv[1] and sv[2] else None
+                it_ok = is_const(none[0], 2 ** 64 - 1) and pay is not None and pay[0] == 'field' and strip_refs(pay[1])[0] == 'downcast' and strip_refs(pay[1])[2] == 'Some' and nz_of_max_iters(strip_refs(pay[1])[1])
+                detail = 'NonZero::new(max_iters): None -> %s ; Some(n) -> %s' % (facts.show(none[0]), facts.show(some[0])[:60])
         ctx.verdict(it_ok, rule, rule + ':max-iters', 'the iteration budget is -t, with 0 meaning unlimited (u64::MAX)', m.where(bi), detail, breaks='-t 0 runs zero iterations, or the budget comes from another option')
         for i, fld, flag in ((3, 'max_regret', '-r'), (4, 'parallel', '-p')):
             ctx.verdict(field_of_args(args[i]) == fld, rule, '%s:%s' % (rule, fld), 'solve() argument %d is %s (args.%s)' % (i, flag, fld), m.where(bi), 'argument %s' % facts.show(args[i]), breaks='%s is wired to another parameter' % flag)
@@ -195,7 +214,30 @@ def run(ctx):
             c = m.cond_of(s, frozenset(['else']))
             if c['kind'] in ('Lt', 'Le', 'Gt', 'Ge') and q.is_call(strip_refs(c['a']), 'regret') and q.is_call(strip_refs(c['b']), 'regret'):
                 sw = (s, c)
+    sel = None
     if sw is None:
+        # selection by extremum over the pair: `[a, b].into_iter().map(evaluate).min_by(regret)` keeps the *first* of equal
+        # minima, so the unpruned profile has to come first for ties to keep it
+        trunc_ls = {tt[0][1] for tt in (m.root_place(t['args'][0]) for bi, t, e in q.calls_named(m, 'truncate') if t['args'][0]['o'] in ('copy', 'move')) if tt is not None and tt[0][0] == 'var'}
+        for bi, t, e in [x for nm in ('min_by', 'min_by_key') for x in q.calls_named(m, nm)]:
+            arr = q.find_sub(e[2][0], lambda x: x[0] == 'agg' and x[1] == 'array' and len(x[2]) == 2)
+            if arr is None:
+                continue
+            def is_pruned(x):
+                x0 = strip_refs(x)
+                if x0[0] == 'var' and x0[1] in trunc_ls:
+                    return True
+                x1 = norm(x)
+                return x1[0] == 'call' and any(x1[3] == q.def_site(m, l_) for l_ in trunc_ls)
+            flags = [is_pruned(x) for x in arr[2]]
+            if flags.count(True) == 1:
+                sel = (bi, flags, short(e[1]))
+    if sw is None and sel is not None:
+        bi, flags, nm = sel
+        ctx.verdict(flags == [False, True], rule, rule + ':strict-comparison', 'the pruned profile is taken exactly when its regret is strictly lower: a selection by %s keeps the first of equal minima, so the unpruned profile comes first' % nm,
+                    m.where(bi), 'candidates in order: %s' % ['pruned' if f_ else 'original' for f_ in flags], breaks='the pruned profile is printed although it is not better (equal regrets)')
+        ctx.anchor_lost(rule, 'main: pair replaced together / output uses the pair', 'selection by %s: the remaining clauses are not followed' % nm)
+    elif sw is None:
         ctx.anchor_lost(rule, 'main: comparison of the two regrets')
     else:
         s, c = sw
